@@ -44,8 +44,8 @@ CLAIMED = {
    text="Mostly correspondence (stated plainly): model/Plots.v composes the IsoFit, elementary-score and Bias models; proved in Coq (axiom-free): diagonal spans all predictions, reliability vertices lie on the fit, are monotone, span the column, "
         "bias variant = prediction minus fit, curve i depends on column i only, Murphy points are the weighted average elementary scores (>= 0) at exactly the requested etas, the default eta grid runs from the min to the max of all observations and predictions, "
         "bias-plot points are compute_bias's means. Decided by correspondence: the Line2D / errorbar data of the Axes returned by the real functions (Agg backend) equal the model (curves compared as functions, 1e-9), labels, returned object is the given ax, configuration unchanged.",
-   note="Not modelled: n_bootstrap, plotly backend (not installed), content of plot_marginal (only axes/config behaviour observed). scikit-learn's fit for the mean is compared with the model. "
-        "Known finding: plot_bias(feature=None, 1-D y_pred) raises TypeError.",
+   note="Not modelled: n_bootstrap, plotly backend (not installed). Extension beyond the three plots the property names: plot_marginal is modelled too (model/PlotMarginal.v: lines = table means, PD line = table PD, bars = weights / total) "
+        "and compared on its artists. scikit-learn's fit for the mean is compared with the model. Known findings: plot_bias(feature=None, 1-D y_pred) raises TypeError; plot_marginal crashes for an all-null numerical feature and for y_pred of shape (n,1).",
    technique="Coq proof about compositions + correspondence on matplotlib artists + judge by brute force", ref="4 C19"),
 
  "C09": dict(
